@@ -159,3 +159,7 @@ func checkC09(t *testing.T, c Case) *stats.Verdict {
 func TestC09(t *testing.T) {
 	stats.Run(t, stats.Prop[Case]{ID: "C09", Rule: ruleC09, Gen: genValidCase, Check: checkC09})
 }
+
+func FuzzC09(f *testing.F) {
+	stats.Fuzz(f, stats.Prop[Case]{ID: "C09", Rule: ruleC09, Gen: genValidCase, Check: checkC09})
+}
